@@ -466,13 +466,13 @@ class C05(Base):
 # ----------------------------------------------------------------------------------------------------------
 class C06(Base):
     id = "C06"
-    quick_worlds = 110
+    quick_worlds = 170
     thorough_worlds = 4000
 
     def gen(self, rng, tier):
         dec = rng.random() < 0.7
         ref = W.ref_random(rng, rng.randint(1, 300), rng.randint(60, 150), decimals=dec)
-        n = rng.randint(4, 8)
+        n = rng.randint(4, 12)
         ids = W.distinct_ids(rng, n, 1, 5000)
         queries, truths = [], {}
         for qid in ids:
@@ -482,7 +482,8 @@ class C06(Base):
         case = {"filesets": {"base": {"refs": [W.strip(ref)], "queries": queries,
                                       "r_layout": W.layout(rng, 1), "q_layout": W.layout(rng, n)}},
                 "config": {}, "truth": truths, "meta": {"ref_family": "random", "families": ["planted"]}}
-        case["executions"] = [gen_exec(rng, mode=m, stream_p=0.05) for m in W.MODES]
+        case["executions"] = [gen_exec(rng, mode=m, stream_p=0.05, cpus=rng.choice([None, 1, 1, 2, 2, 3, 4, 8, 16]))
+                              for m in W.MODES]
         return case
 
     def run(self, case, ctx):
@@ -549,7 +550,7 @@ class C06(Base):
 class C07(Base):
     id = "C07"
     klass = "A"
-    quick_worlds = 330
+    quick_worlds = 420
     thorough_worlds = 10000
 
     def gen(self, rng, tier):
@@ -817,7 +818,7 @@ _TOKM = _re.compile(r"\d+M")
 class C09(Base):
     id = "C09"
     klass = "A"
-    quick_worlds = 64
+    quick_worlds = 90
     thorough_worlds = 2500
     K = {"quick": 4, "thorough": 8}
 
@@ -901,7 +902,7 @@ def per_query(parsed_all):
 class C10(Base):
     id = "C10"
     klass = "A"
-    quick_worlds = 100
+    quick_worlds = 120
     thorough_worlds = 3500
 
     def gen(self, rng, tier):
@@ -1068,7 +1069,7 @@ def c11_diagnose(cq, ct, n):
 
 class C11(Base):
     id = "C11"
-    quick_worlds = 330
+    quick_worlds = 520
     thorough_worlds = 10000
 
     def gen(self, rng, tier):
@@ -1271,8 +1272,8 @@ def world_digest(obj):
 class C17(Base):
     id = "C17"
     klass = "A"
-    quick_worlds = 3000
-    thorough_worlds = 300000
+    quick_worlds = 10000
+    thorough_worlds = 600000
     in_process = True
 
     def gen(self, rng, tier):
